@@ -205,3 +205,16 @@ ASSUMPTIONS = ['a dict comprehension {t.name: t for t in L} with pairwise distin
                'term objects are read-only references: .name, .data, .factor.name and eval_new_data(data) are functions of the object (and the frame)',
                'np.column_stack of a list of arrays: widths add up and blocks are laid out in order (prefix sums); lemma psum_prefix is checked in Lean (lemmas/psum_prefix.lean)',
                'the key order of the slices dict is not modelled (only the mapping name -> slice)']
+
+
+# ---- ResponseMatrix.evaluate (C15): the response matrix IS the response term's data, kind and levels - nothing reshaped ------
+REG.declare_class(M + "ResponseMatrix", {"term": "any", "name": "any", "data": "any", "design_matrix": "any", "env": "any",
+                                          "kind": "any", "levels": "any"})
+REG.contract(M + "ResponseMatrix.evaluate", params={"data": "any", "env": "any"}, tags=["C15"],
+             modifies=["self.data", "self.env", "self.kind", "self.design_matrix", "self.levels"],
+             ensures=["self.design_matrix == self.term.term.data", "self.kind == self.term.term.kind",
+                      "self.levels == self.term.term.levels", "self.data == data", "self.env == env"])
+FUNCTIONS += [M + "ResponseMatrix.evaluate"]
+RESPONSE = [M + "ResponseMatrix.evaluate"]
+ASSUMPTIONS += ["ResponseMatrix.evaluate: the response term is an opaque object; its set_type / set_data calls happen before its data, kind "
+                "and levels are read (their own behaviour is the subject of variable_c / terms_c and of the bounded tier)"]
